@@ -49,3 +49,47 @@ Theorem C18_queue_components_are_ring_runs :
     (exists evs, qb Q (fold_left (zexec Q qstep qstart qidle qlog lha qlen_now) zevs s0) = fold_left (zqexec Q qstep qstart) evs (qb Q s0)).
 Proof. exact z_components_reachable. Qed.
 Print Assumptions C18_queue_components_are_ring_runs.
+
+(* ---- the stand-alone zero-copy ATOMIC queue at the PAYLOAD level (Alloc/ZcqPayload.v): for every interleaving of any number of threads
+   issuing enqueue / dequeue / length, any BUFFER_SIZE, any initial pool contents ---- *)
+From Coq Require Import Permutation.
+From RM Require Import PoolRun ZcConserve ZcqPayload.
+
+(* every slot id is in exactly one place: free list, id ring, inside an enqueue (allocated, not yet published) or inside a dequeue (taken
+   out, not yet given back) - so a slot is never re-allocated while a dequeue is still reading it *)
+Theorem C18_zero_copy_queue_slots_conserved :
+  forall N, 0 < N -> forall p evs, let s := zq_run N p evs in
+  exists ths, NoDup ths /\ (forall t, ~ In t ths -> enq_transit s t = [] /\ deq_transit s t = []) /\
+    Permutation (ids_upto N) (inring (FA s) ++ inring (QB s) ++ flat_map (enq_transit s) ths ++ flat_map (deq_transit s) ths).
+Proof. exact zcq_slots_conserved. Qed.
+Print Assumptions C18_zero_copy_queue_slots_conserved.
+
+(* the queued slots always hold exactly the enqueued values that were not taken yet, in enqueue order (no torn / stale / foreign payload) *)
+Theorem C18_zero_copy_queue_queued_payloads :
+  forall N, 0 < N -> forall p evs, let s := zq_run N p evs in
+  map (POOL s) (inring (QB s)) = skipn (Z.to_nat (head (QB s))) (enqueued_of (ZLOG s)).
+Proof. exact zcq_queued_payloads. Qed.
+Print Assumptions C18_zero_copy_queue_queued_payloads.
+
+(* FIFO at the level of the answers: with one dequeuing thread the values dequeued are, in order, a prefix of the values enqueued ... *)
+Theorem C18_zero_copy_queue_fifo_single_consumer :
+  forall N, 0 < N -> forall p c evs, (forall t, In (ZStart t ZDeq) evs -> t = c) -> let s := zq_run N p evs in
+  dequeued_of (ZLOG s) = firstn (length (dequeued_of (ZLOG s))) (enqueued_of (ZLOG s)).
+Proof. exact zcq_fifo_single_consumer. Qed.
+Print Assumptions C18_zero_copy_queue_fifo_single_consumer.
+
+(* ... with several dequeuing threads the ANSWERS of overlapping dequeues may be logged in either order (the order of the answers is not
+   the order of the dequeues: see the Example), so the statement is: when no dequeue is in progress, the values dequeued are a permutation
+   of the first `head` values enqueued - each enqueued value at most once, none invented (in the order in which the dequeues took their
+   slot out of the id ring it is exactly that prefix: zcq_fifo_in_consume_order) *)
+Theorem C18_zero_copy_queue_dequeued_is_the_enqueued_prefix :
+  forall N, 0 < N -> forall p evs, let s := zq_run N p evs in
+  (forall t, deq_transit s t = []) ->
+  Permutation (dequeued_of (ZLOG s)) (firstn (Z.to_nat (head (QB s))) (enqueued_of (ZLOG s))).
+Proof. exact zcq_dequeued_permutation. Qed.
+Print Assumptions C18_zero_copy_queue_dequeued_is_the_enqueued_prefix.
+
+Example C18_answers_of_overlapping_dequeues_in_either_order :
+  let s := zq_run 2 (fun _ => 0) cx_evs in
+  enqueued_of (ZLOG s) = [10; 20] /\ dequeued_of (ZLOG s) = [20; 10].
+Proof. destruct zcq_log_order_fifo_refuted as (_ & H1 & H2 & _). split; assumption. Qed.
